@@ -1,17 +1,24 @@
 /-
-C15 — Preprocessor: conditional regions select exactly the enabled tokens.
+C15 — Preprocessor: conditional regions select exactly the enabled tokens; a conditional left
+open at the end of the text is reported.
 
-Two layers.  `PP` (PrepSpec.lean) is `preprocessor.rs` over the lexer's token *stream* together
-with a declarative reference evaluation `Items.ref` of well-nested `#define/#ifdef/#ifndef/#else/
-#endif` arrangements; `Items.sel` proves, for arbitrary nesting, that the machine selects exactly
-the reference's tokens.  `PrepRefine.lean` proves that the concrete model `Src.eat` (the one the
-parser model runs on and the one compared with the Rust code) *is* that machine over
-`Lex.allTokens text`.  The theorems below compose the two.
+Two layers.  `PP` (PrepSpec.lean) is `preprocessor.rs` over the lexer's token *stream* (macro set,
+`open_conditionals`, the parked message, "the lexer holds a parked message") together with a
+declarative reference evaluation `Items.ref` of well-nested `#define/#ifdef/#ifndef/#else/#endif`
+arrangements; `Items.steps` proves, for arbitrary nesting, that the machine selects exactly the
+reference's tokens and comes back to the state it started in.  `PrepRefine.lean` proves that the
+concrete model `Src.eat` / `Src.takeError` (the one the parser model runs on and the one compared
+with the Rust code) *is* that machine over `Lex.allTokens text` (`eat_refine`, `drain_refine`).
+`ParserFinish.lean` proves that the token source of every parser state with look-ahead `Eof` is
+the drained source, so what `ParserBase::finish` appends is `endErrors text`.  The theorems below
+compose the three.
 
 The hypothesis `absToks text = items.flatten` says "the lexer splits the text into this
 well-nested arrangement"; that the lexer does so for directive text is C14's business.
 -/
 import TgModel.Lemmas.PrepRefine
+import TgModel.Lemmas.ParserFinish
+import TgModel.Lemmas.PrepEnd
 import TgModel.Grammar
 
 namespace Tg.C15
@@ -31,12 +38,32 @@ theorem prep_selects (text : List Char) (items : Items) (hok : items.ok = true)
     (by simpa [Src.init, hflat] using hrun) hne
   exact ⟨n, toks, ht, by rw [hd, hpl]⟩
 
+/-- **selection, unterminated arrangements**: the same when the text ends inside conditionals —
+the delivered tokens are those of `pre`'s reference followed by the reference of the open frames
+(`Frames.ref`: an open disabled branch and an open `#else` part after an enabled branch hide
+everything up to the end of the text), and no preprocessor `Error` token is delivered -/
+theorem prep_selects_unterminated (text : List Char) (pre : Items) (hpre : pre.ok = true)
+    (fs : List Frame) (hfs : ∀ f ∈ fs, f.ok = true)
+    (hflat : absToks text = pre.flatten ++ Frames.flatten fs) :
+    ∃ n toks, Src.runAll n (Src.init text) = some toks ∧
+      Src.delivered toks = (pre.ref []).1 ++ Frames.ref (pre.ref []).2 fs := by
+  obtain ⟨n, outs, hrun, hpl, hne⟩ := unterminated_sel pre hpre fs hfs { macros := [] }
+  obtain ⟨toks, ht, hd⟩ := Src.runAll_refine n (Src.init text) { macros := [] } rfl outs
+    (by simpa [Src.init, hflat] using hrun) hne
+  exact ⟨n, toks, ht, by rw [hd, hpl]⟩
+
 /-- **disabled text is silent**: a disabled scan skips a whole well-nested item list at any
 depth ≥ 1 — its tokens (including lexical `Error` tokens and nested directives) are consumed
 without being delivered -/
 theorem disabled_skips (is : Items) (hok : is.ok = true) (d : Nat) (hd : 1 ≤ d) (r : List LK) :
     eatUntil d (is.flatten ++ r) = eatUntil d r :=
   Items.skip is hok d hd r
+
+/-- … and the lexical messages of skipped text are dropped: after `eat_until_else_or_endif`
+the lexer holds no parked message, whatever was skipped and however the skip ended -/
+theorem skipped_lexical_errors_dropped (fuel : Nat) (s : Src) (racc : List Char) :
+    (Src.skipCond fuel s racc).2.1.lexErr = none :=
+  Src.skipCond_lexErr fuel s racc
 
 /-- **missing macro name** after `#ifdef` / `#ifndef` (anything but an identifier, or end of
 input) is an `Error` token … -/
@@ -67,36 +94,172 @@ theorem missing_name_has_message (s : Src) (h : (s.eat).1.kind = .Error) :
     (s.eat).2.prepErr.isSome = true ∨ (s.eat).2.lexErr.isSome = true :=
   Src.eat_error s h
 
-/-- FULL STATEMENT (false on the current tree): a conditional left unterminated at end of file
-yields a syntax error. -/
-def UnterminatedReported : Prop :=
-  ∀ r, Grammar.parse ['#','i','f','d','e','f',' ','X','\n','c','l','a','s','s',' ','A',';'] = .ok r → r.errors ≠ []
+/-! ### conditionals left open at the end of the text
+
+"Unterminated" is stated declaratively: the lexer's token stream is a well-nested item list `pre`
+followed by a non-empty chain `fs` of *frames* — each frame a conditional header, well-nested
+`then` items and optionally `#else` with well-nested `else` items, the next frame nested inside
+(`PP.Frames.flatten`); no `#endif` for any of them.  Both cases are covered at every level: the
+delivered branch of the innermost conditional is enabled (the counter `open_conditionals` is
+positive at `Eof`) or a skip runs into the end of the text. -/
+
+/-- (a) **stream level**: the token source of an unterminated arrangement, run to `Eof` under the
+parser's discipline, answers `take_error` with "reached EOF without matching #endif" -/
+theorem unterminated_parked (text : List Char) (pre : Items) (hpre : pre.ok = true)
+    (fs : List Frame) (hfs : ∀ f ∈ fs, f.ok = true) (hne : fs ≠ [])
+    (hflat : absToks text = pre.flatten ++ Frames.flatten fs) :
+    ∃ n s, Src.drain n (Src.init text) = some s ∧ (s.takeError).1 = some eofMsg := by
+  obtain ⟨n, fin, hd, he⟩ := unterminated_parks pre hpre fs hfs hne { macros := [] } ⟨rfl, rfl⟩
+  obtain ⟨s, hs, hR⟩ := Src.drain_refine n (Src.init text) { macros := [] } (Src.R_init text) fin
+    (by simpa [Src.init, hflat] using hd)
+  exact ⟨n, s, hs, (Src.takeError_of_R hR).1 he⟩
+
+/-- … in terms of `Src.endMessage` (the message `ParserBase::finish` finds) -/
+theorem unterminated_endMessage (text : List Char) (pre : Items) (hpre : pre.ok = true)
+    (fs : List Frame) (hfs : ∀ f ∈ fs, f.ok = true) (hne : fs ≠ [])
+    (hflat : absToks text = pre.flatten ++ Frames.flatten fs) :
+    Src.endMessage text = some eofMsg := by
+  obtain ⟨n, s, hs, ht⟩ := unterminated_parked text pre hpre fs hfs hne hflat
+  rw [Src.endMessage_of_drain text n s hs, ht]
+
+/-- every successful parse reports the errors of the grammar run followed by what
+`ParserBase::finish` appends for the message left in the token source -/
+theorem parse_reports_end (text : List Char) (r : Grammar.ParseResult) (h : Grammar.parse text = .ok r) :
+    ∃ s, exec Grammar.defs Tables.recoverTokens (Grammar.parseFuel text) (.call .source_file) (PState.init text) = .ok s ∧
+      r.errors = s.errors.reverse ++ endErrors text := by
+  obtain ⟨s, hx, _, _, he, _⟩ := (Grammar.parse_ok_iff text r).mp h
+  exact ⟨s, hx, he⟩
+
+/-- (b) **parser level**: whenever the parser model returns a result for an unterminated
+arrangement, its last error is "reached EOF without matching #endif" at (len, len) -/
+theorem unterminated_reported (text : List Char) (pre : Items) (hpre : pre.ok = true)
+    (fs : List Frame) (hfs : ∀ f ∈ fs, f.ok = true) (hne : fs ≠ [])
+    (hflat : absToks text = pre.flatten ++ Frames.flatten fs)
+    (r : Grammar.ParseResult) (h : Grammar.parse text = .ok r) :
+    ∃ es, r.errors = es ++ [{ start := byteLen text, stop := byteLen text, msg := eofMsg }] := by
+  obtain ⟨s, _, he⟩ := parse_reports_end text r h
+  refine ⟨s.errors.reverse, ?_⟩
+  rw [he, endErrors, unterminated_endMessage text pre hpre fs hfs hne hflat]
+
+/-- (c) **well-nested ⇒ nothing left**: the token source of a well-nested arrangement, run to
+`Eof` under the parser's discipline, ends with `open_conditionals = 0` and no parked message —
+neither the preprocessor's nor the lexer's (the messages of delivered lexical `Error` tokens have
+been fetched, those of skipped ones dropped) -/
+theorem wellnested_clean (text : List Char) (items : Items) (hok : items.ok = true)
+    (hflat : absToks text = items.flatten) :
+    ∃ n s, Src.drain n (Src.init text) = some s ∧ s.openConds = 0 ∧ s.prepErr = none ∧ s.lexErr = none ∧
+      (s.takeError).1 = none := by
+  obtain ⟨n, hd⟩ := Items.drain_clean items hok { macros := [] } ⟨rfl, rfl⟩ rfl
+  obtain ⟨s, hs, hR⟩ := Src.drain_refine n (Src.init text) { macros := [] } (Src.R_init text) _
+    (by simpa [Src.init, hflat] using hd)
+  refine ⟨n, s, hs, hR.opens.symm, hR.err.symm, ?_, (Src.takeError_of_R hR).2 rfl rfl⟩
+  have := hR.lex
+  simpa using this.symm
+
+theorem wellnested_endMessage (text : List Char) (items : Items) (hok : items.ok = true)
+    (hflat : absToks text = items.flatten) : Src.endMessage text = none := by
+  obtain ⟨n, s, hs, _, _, _, ht⟩ := wellnested_clean text items hok hflat
+  rw [Src.endMessage_of_drain text n s hs, ht]
+
+/-- … hence `ParserBase::finish` appends nothing: the errors of a well-nested arrangement are the
+errors of the grammar run alone -/
+theorem wellnested_no_eof_error (text : List Char) (items : Items) (hok : items.ok = true)
+    (hflat : absToks text = items.flatten) (r : Grammar.ParseResult) (h : Grammar.parse text = .ok r) :
+    endErrors text = [] ∧
+    ∃ s, exec Grammar.defs Tables.recoverTokens (Grammar.parseFuel text) (.call .source_file) (PState.init text) = .ok s ∧
+      r.errors = s.errors.reverse := by
+  have he : endErrors text = [] := by rw [endErrors, wellnested_endMessage text items hok hflat]
+  obtain ⟨s, hx, hr⟩ := parse_reports_end text r h
+  exact ⟨he, s, hx, by rw [hr, he, List.append_nil]⟩
 
 def errorCount : Grammar.ParseOut → Option Nat
   | .ok r => some r.errors.length
   | _ => none
 
-/-- witness: `#ifdef X\nclass A;` (no `#endif`) parses with **zero** errors — the message
-"reached EOF without matching #endif" is parked in `PreProcessor::error` but the token returned
-is `PreProcessor` trivia, so nobody fetches it; enabled conditionals are not tracked at all -/
-theorem unterminated_not_reported_witness :
-    errorCount (Grammar.parse ['#','i','f','d','e','f',' ','X','\n','c','l','a','s','s',' ','A',';']) = some 0 ∧
-    errorCount (Grammar.parse ['#','d','e','f','i','n','e',' ','X','\n','#','i','f','d','e','f',' ','X','\n',
-                               'c','l','a','s','s',' ','A',';']) = some 0 := by
-  constructor <;> decide +kernel
+def lastError : Grammar.ParseOut → Option (Nat × Nat × String)
+  | .ok r => r.errors.getLast?.map fun e => (e.start, e.stop, e.msg)
+  | _ => none
 
-theorem unterminated_reported_false : ¬ UnterminatedReported := by
-  intro h
-  have hw := unterminated_not_reported_witness.1
-  revert hw
-  cases hp : Grammar.parse ['#','i','f','d','e','f',' ','X','\n','c','l','a','s','s',' ','A',';'] with
-  | ok r =>
-    intro hw
-    have := h r hp
-    simp [errorCount] at hw
-    exact this hw
-  | panic w => simp [errorCount]
-  | outOfFuel => simp [errorCount]
+/-- (d) `#ifdef X\nclass A;` (disabled, the skip runs into the end of the text) and
+`#define X\n#ifdef X\nclass A;` (enabled, the counter is positive at `Eof`) now parse with exactly
+one error: the message at (len, len) -/
+theorem unterminated_reported_witness :
+    errorCount (Grammar.parse ['#','i','f','d','e','f',' ','X','\n','c','l','a','s','s',' ','A',';']) = some 1 ∧
+    lastError (Grammar.parse ['#','i','f','d','e','f',' ','X','\n','c','l','a','s','s',' ','A',';']) =
+      some (17, 17, "reached EOF without matching #endif") ∧
+    errorCount (Grammar.parse ['#','d','e','f','i','n','e',' ','X','\n','#','i','f','d','e','f',' ','X','\n',
+                               'c','l','a','s','s',' ','A',';']) = some 1 ∧
+    lastError (Grammar.parse ['#','d','e','f','i','n','e',' ','X','\n','#','i','f','d','e','f',' ','X','\n',
+                               'c','l','a','s','s',' ','A',';']) =
+      some (27, 27, "reached EOF without matching #endif") := by
+  refine ⟨?_, ?_, ?_, ?_⟩ <;> decide +kernel
+
+/-- non-vacuity of `unterminated_reported`: both texts are unterminated arrangements as the lexer
+model really splits them (one frame each) -/
+example : ∃ (pre : Items) (fs : List Frame), pre.ok = true ∧ (∀ f ∈ fs, f.ok = true) ∧ fs ≠ [] ∧
+    absToks ['#','i','f','d','e','f',' ','X','\n','c','l','a','s','s',' ','A',';'] = pre.flatten ++ Frames.flatten fs := by
+  refine ⟨.nil, [⟨false, 1, ['X'], .cons (.tok .ws) (.cons (.tok (.other .Class ['c','l','a','s','s']))
+    (.cons (.tok .ws) (.cons (.tok (.id ['A'])) (.cons (.tok (.other .Semi [';'])) .nil)))), false, .nil⟩],
+    by decide, by decide, by decide, ?_⟩
+  decide +kernel
+
+example : ∃ (pre : Items) (fs : List Frame), pre.ok = true ∧ (∀ f ∈ fs, f.ok = true) ∧ fs ≠ [] ∧
+    absToks ['#','d','e','f','i','n','e',' ','X','\n','#','i','f','d','e','f',' ','X','\n',
+             'c','l','a','s','s',' ','A',';'] = pre.flatten ++ Frames.flatten fs := by
+  refine ⟨.cons (.define 1 ['X']) (.cons (.tok .ws) .nil),
+    [⟨false, 1, ['X'], .cons (.tok .ws) (.cons (.tok (.other .Class ['c','l','a','s','s']))
+      (.cons (.tok .ws) (.cons (.tok (.id ['A'])) (.cons (.tok (.other .Semi [';'])) .nil)))), false, .nil⟩],
+    by decide, by decide, by decide, ?_⟩
+  decide +kernel
+
+/-- a deeper one: `#ifdef X` … `#else` … `#ifndef Y` … (two frames, the first in its else part) -/
+example : ∃ (pre : Items) (fs : List Frame), pre.ok = true ∧ (∀ f ∈ fs, f.ok = true) ∧ fs.length = 2 ∧
+    absToks ['#','i','f','d','e','f',' ','X','\n','a','\n','#','e','l','s','e','\n','#','i','f','n','d','e','f',' ','Y','\n','b'] =
+      pre.flatten ++ Frames.flatten fs := by
+  refine ⟨.nil, [⟨false, 1, ['X'], .cons (.tok .ws) (.cons (.tok (.id ['a'])) (.cons (.tok .ws) .nil)), true,
+      .cons (.tok .ws) .nil⟩,
+    ⟨true, 1, ['Y'], .cons (.tok .ws) (.cons (.tok (.id ['b'])) .nil), false, .nil⟩],
+    by decide, by decide, rfl, ?_⟩
+  decide +kernel
+
+/-- **a directive `Error` token comes with its message alone**: when an `eat` that started with
+no preprocessor message parked returns `Error` and has parked one (missing macro name after
+`#ifdef` / `#ifndef` / `#define`, also when the offending token was itself a lexical `Error`
+token), `PreProcessor::error` has dropped the lexer's message — nothing stale stays behind -/
+theorem directive_error_drops_lexer_message (s : Src) (hp : s.prepErr = none)
+    (hk : (s.eat).1.kind = .Error) (hs : (s.eat).2.prepErr.isSome = true) : (s.eat).2.lexErr = none :=
+  Src.eat_directive_error_lexErr s hp hk hs
+
+/-- under the parser's discipline every delivered token is *properly served* (`Src.Served`): an
+`Error` token with exactly one parked message, any other token with none — except, when no input
+is left, "reached EOF without matching #endif" — for every input, at every round of `save; lex` -/
+theorem tokens_properly_served (input : List Char) (n : Nat) :
+    Src.Served (Src.chain input n).1 (Src.chain input n).2 :=
+  Src.chain_served input n
+
+/-- **the error appended by `finish` is never a lexer message** (nor a "missing macro name"
+message): for every input, the message left in the token source at `Eof` — if any — is
+"reached EOF without matching #endif" -/
+theorem end_message_is_eof_message (input : List Char) (m : String) (h : Src.endMessage input = some m) :
+    m = eofMsg :=
+  Src.endMessage_eofMsg input m h
+
+/-- … so `ParserBase::finish` appends nothing or exactly that error at (len, len) -/
+theorem finish_appends_only_eof_error (input : List Char) :
+    endErrors input = [] ∨
+    endErrors input = [{ start := byteLen input, stop := byteLen input, msg := eofMsg }] := by
+  unfold endErrors
+  cases h : Src.endMessage input with
+  | none => exact Or.inl rfl
+  | some m => rw [end_message_is_eof_message input m h]; exact Or.inr rfl
+
+/-- the case that used to leave a stale lexer message behind: `#ifdef "a` (the "macro name" is a
+lexical `Error` token) — nothing is left at the end of the text -/
+example : Src.endMessage ['#','i','f','d','e','f',' ','"','a','\n','x'] = none := by decide +kernel
+
+/-- a lexical error inside a disabled region is not reported: `#ifdef X\n"\n#endif` parses clean -/
+example : errorCount (Grammar.parse ['#','i','f','d','e','f',' ','X','\n','"','\n','#','e','n','d','i','f']) = some 0 := by
+  decide +kernel
 
 /-- non-vacuity of `prep_selects`: a two-level nesting with `#else`, a `#define` and a disabled
 lexical error, as the lexer model really splits it -/
